@@ -174,6 +174,12 @@ func body(sc scenario) func() {
 		if v := s.CheckMonitors(); len(v) > 0 {
 			failf("monitor", "%s", v[0])
 		}
+		// a popped block must have been handed back (judged from the allocation order, not from the list's bookkeeping)
+		if n := len(s.StateStore.Written); n > 0 && !s.ReleaseWakeupReady() {
+			if v := s.Alloc.PoppedNotReleased(s.StateStore.Written[n-1]); len(v) > 0 {
+				failf("popped-block-never-released", "at quiescence (no release pending): %s\n%s", v[0], s.Alloc.Describe())
+			}
+		}
 		// every acknowledged upload still held live is committed
 		for _, a := range acks {
 			if !s.Held(a.Obj.Digest) {
